@@ -51,7 +51,7 @@ def coord(draw):
 def document(draw):
     els_all = _elements()
     n = draw(st.one_of(st.just(1), st.integers(2, 8), st.integers(2, 30), st.integers(2, 30), st.sampled_from([130, 260, 300])))
-    scheme = draw(st.sampled_from(["sequential", "shuffled", "sparse", "arbitrary", "positional-trap", "zero-based"]))
+    scheme = draw(st.sampled_from(["sequential", "shuffled", "sparse", "arbitrary", "positional-trap", "zero-based", "long-prefix", "case-variants"]))
     if scheme == "sequential":
         ids = ["a%d" % (i + 1) for i in range(n)]
     elif scheme == "zero-based":
@@ -65,8 +65,16 @@ def document(draw):
         base = ["a%d" % (i + 1) for i in range(n)]
         k = draw(st.integers(1, max(1, n - 1)))
         ids = base[k:] + base[:k] if draw(st.booleans()) else list(reversed(base))
+    elif scheme == "long-prefix":
+        # descriptive ids sharing a long common prefix (carboxylate_C, carboxylate_O1, ...)
+        pre = draw(st.sampled_from(["carboxylate_", "linker-ring.atom", "node_Zr6_O", "a" * 9, "molecule1:residue2:"]))
+        ids = ["%s%s" % (pre, k) for k in draw(st.lists(st.integers(0, 99999), min_size=n, max_size=n, unique=True))]
+    elif scheme == "case-variants":
+        # PDB-style names that differ only in letter case (CA alpha carbon vs Ca calcium)
+        pool = ["CA", "Ca", "cA", "ca", "HO", "Ho", "hO", "ho", "CO", "Co", "cO", "co", "NA", "Na", "nA", "na", "OD1", "Od1", "oD1", "od1"]
+        ids = list(draw(st.permutations(pool)))[:n] if n <= len(pool) else ["%s%d" % (pool[i % len(pool)], i // len(pool)) for i in range(n)]
     else:
-        ids = draw(st.lists(st.text(alphabet=ID_ALPHABET, min_size=1, max_size=6), min_size=n, max_size=n, unique=True))
+        ids = draw(st.lists(st.text(alphabet=ID_ALPHABET, min_size=1, max_size=14), min_size=n, max_size=n, unique=True))
     atoms = []
     for i in range(n):
         atoms.append({"id": ids[i], "el": draw(st.sampled_from(["C", "H", "O", "N", "Zr"] + els_all)),
